@@ -1143,7 +1143,9 @@ func (c *Conn) writeRequest(ctx *Ctx) error {
 		c.setLastErr(err)
 		// if we had any error, remove it from the reqQueued.
 		c.dequeueReq(id)
-		c.deletePending(id)
+		// The Ctx is still ours here: deletePending would take its lock again
+		// to close a streamed body, and stop the write loop for good.
+		c.deletePendingOwned(id)
 
 		return err
 	}
